@@ -23,6 +23,10 @@ RULE = (
     'build with db.versions()). Non-trivial: a pair that differs in exactly '
     'a later component while an earlier one ties (order); at least one '
     'algorithm bumped and one not (build). Distinct = SHA-1 of case JSON.'
+    ' Algorithms may list an extra state vector that is empty until run. Aft'
+    'er the pending-set comparison the schedule is drained (next_job_batch '
+    '/ complete) and the units handed out are compared with the expected se'
+    't. '
 )
 ASSUMPTIONS = [
     'version components are non-negative ints (documented contract)',
